@@ -272,12 +272,14 @@ def conc_consts(nsubs, mn, mx, modes, cstyles, pub, batch, join, kick, at=(), co
     return c
 
 
-def conc_replay(ctx, tag="conc", max_paths_quick=1200):
+def conc_replay(ctx, tag="conc", max_paths_quick=1200, max_paths_thorough=9000):
     """publisher thread against subscriber threads on REAL threads under the controlled scheduler at lock grain (the
     queue's std::mutex is virtual): every critical section is one step, the wake-up loop after the unlock a step of its
     own; TLC checks the C16 invariants on the thread-structured model, every step of the replay compares the queue's
     internal state, every thread's pending operation and what every subscriber received, and every step that is not a
-    critical section must leave the mutex-guarded state untouched.  Also used by C03 (lock discipline)."""
+    critical section must leave the mutex-guarded state untouched.  Also used by C03 (lock discipline).
+    A step of the replay costs several thread hand-overs (~0.3 ms), so the path sets are capped in both tiers: TLC
+    explores the models completely, the replay covers the edges reached by max_paths_* edge-seeking paths."""
     rpc = vlib.compile_harness(vlib.VERIF + "/harness/publisher_conc_replay.cpp", "publisher_conc_replay",
                                extra_flags=["-rdynamic"], sanitize=False)
     if ctx.quick:
@@ -305,7 +307,7 @@ def conc_replay(ctx, tag="conc", max_paths_quick=1200):
             m.append("TJoinCopy")
         with fast_cover():
             graph_replay(ctx, "Publisher", "PublisherConc", "PublisherConc.cfg", "%s_%s" % (tag, name), rpc, conc_proj,
-                         header_fn=hdr, must_take=m, constants=c, max_paths=max_paths_quick if ctx.quick else None,
+                         header_fn=hdr, must_take=m, constants=c, max_paths=max_paths_quick if ctx.quick else max_paths_thorough,
                          tlc_kw={"workers": 4}, replay_timeout=180 if ctx.quick else 1800)
     ctx.assume("publisher on real threads: lock grain (std::mutex virtual, atomic operations are not scheduling points; the "
                "awaiter/sync_awaiter protocol itself is decided by C01/C02); one publisher thread, one thread per subscriber; a "
@@ -375,6 +377,9 @@ def run(ctx):
                          "get_value_lk (skip_if_behind) does not record the delivered position")
         expect_violation(ctx, dict(consts(2, 1, U, ["all"], styles='{"split"}', pub=2, batch=1, join=2, kick=0, at=[], copybusy=True),
                                    FixCopyParked="FALSE"), "mut_copyparked", "copy of a parked subscriber takes the pre-incremented position")
+    # publisher thread against subscriber threads on real threads at lock grain
+    conc_replay(ctx)
+    vlib.log("  C16 threaded lock-grain replay done: %.0fs" % (time.time() - t0))
     ctx.assume("threads are modelled at critical-section grain: the two critical sections of next() (advance_lk, "
                "advance_suspend_lk), the wake-up and get_value_lk are separately scheduled steps replayed single-threaded "
                "through the awaiter's public await_ready/await_suspend/await_resume; std::mutex is trusted to make each "
